@@ -416,6 +416,8 @@ class Gen:
         rng = self.rng
         r = rng.random()
         c = [n for n in vis(scope) if n.rank == 0 and n.ix]
+        ca = [n for n in c if n.assoc]
+        if ca and r < 0.35: return ['var', rng.choice(ca).name]
         if c and r < 0.55: return ['var', rng.choice(c).name]
         if r < 0.9 or self.nointr: return ['int', rng.randint(1, BOUND)]
         c = [n for n in vis(scope) if n.rank == 0]
@@ -487,6 +489,12 @@ class Gen:
         allow_val = not (self.mode == 'merge' and nested)
         arrs = [n for n in v if n.rank >= 1]
         r = rng.random()
+        if r < 0.08:
+            c = [n for n in v if n.rank == 0 and n.ix and not n.val and not (n.deps & avoid)
+                 and (not (self.mode == 'merge' and nested) or n in self.outer_dyn)]
+            if c:
+                n = rng.choice(c); self.features.add('index-alias')
+                return ['name', n.name], N(x, 0, n.base, n.deps, True, True, n.pure, n.val)
         if r < 0.22:
             n = rng.choice([n for n in v if n.rank == 0])
             self.features.add('alias-of-assoc' if n.assoc else 'scalar')
@@ -603,6 +611,66 @@ def store_json(st):
 def store_of_json(js):
     return {k: ({tuple(i): v for i, v in d} if isinstance(d, list) else d) for k, d in js.items()}
 
+def gen_rebind(rng, variant):
+    """the same statement texts under different bindings of the same names (sibling blocks, nested shadowing with a
+    different selector, associate names equal to routine variables that are also used outside the block).  All selectors are
+    static (names, elements/sections with literal or read-only subscripts), so every program is in selectors_stable."""
+    g = Gen(rng, mode='resolve')
+    wb = frozenset(SCAL_W) | frozenset(ARRS)
+    def sel0():
+        r = rng.random()
+        if r < 0.45:
+            b = rng.choice(SCAL_W); return ['name', b], b
+        a = rng.choice(['arr', 'brr'])
+        if r < 0.8: return ['sec', a, [['fix', rng.choice([I(rng.randint(1, BOUND)), V(rng.choice(SCAL_R))])]]], a
+        return ['sec', 'm', [['fix', I(rng.randint(1, BOUND))], ['fix', rng.choice([I(rng.randint(1, BOUND)), V(rng.choice(SCAL_R))])]]], 'm'
+    def sel1():
+        r = rng.random()
+        if r < 0.4:
+            a = rng.choice(['arr', 'brr']); return ['name', a], a
+        if r < 0.6:
+            a = rng.choice(['arr', 'brr']); return ['sec', a, [['free', 0, None, None]]], a
+        fixd = ['fix', rng.choice([I(rng.randint(1, BOUND)), V(rng.choice(SCAL_R))])]
+        return ['sec', 'm', [['free', 0, None, None], fixd] if rng.random() < 0.5 else [fixd, ['free', 0, None, None]]], 'm'
+    def two(f):
+        a = f()
+        for _ in range(20):
+            b = f()
+            if b[0] != a[0]: return a, b
+        return a, b
+    if variant == 'basevar':
+        x, z = rng.choice(SCAL_W), rng.choice(['arr', 'brr'])
+    else:
+        x, z = 'x', 'z'
+    (s0a, b0a), (s0b, b0b) = two(sel0)
+    (s1a, b1a), (s1b, b1b) = two(sel1)
+    if variant == 'basevar':
+        # the selector must not be the shadowed variable itself
+        for _ in range(20):
+            if s0a != ['name', x] and s1a != ['name', z]: break
+            (s0a, b0a), (s0b, b0b) = two(sel0); (s1a, b1a), (s1b, b1b) = two(sel1)
+    scope = base_scope() + [N(x, 0, b0a, [b0a], True), N(z, 1, b1a, [b1a], True)]
+    def block():
+        return g.stmts(1, rng.randint(2, 3), scope, wb, 3, 0)
+    B = block()
+    # make sure the repeated text mentions the rebound names on both sides of an assignment
+    B = [['store', z, [V('k')], ['sum', False, ['call', z, V('k')], V(x)]], ['assign', x, ['sum', False, V(x), ['call', z, V('n')]]]] + B
+    A1 = [[x, s0a], [z, s1a]]; A2 = [[x, s0b], [z, s1b]]
+    if variant == 'keptsub':
+        # partial-depth resolution: a kept outer array name subscripted with names of a resolved inner block
+        e1, e2 = 'e', 'g'
+        inner = [[e1, ['name', rng.choice(SCAL_R)]], [e2, rng.choice([['val', I(rng.randint(1, BOUND))], ['name', rng.choice(SCAL_R)]])]]
+        sc2 = scope + [N(e1, 0, None, ['n', 'k'], True, ix=True), N(e2, 0, None, ['n', 'k'], True, ix=True)]
+        C = [['store', z, [V(e1)], ['sum', False, ['call', z, V(e2)], V(x)]], ['assign', x, ['call', z, V(e1)]]] + g.stmts(1, rng.randint(1, 2), sc2, wb, 3, 0)
+        return [['assoc', A1, B[:2] + [['assoc', inner, C]]]]
+    if variant == 'sibling':
+        body = [['assoc', A1, B], ['assoc', A2, B]]
+    elif variant == 'nested':
+        body = [['assoc', A1, B + [['assoc', A2, B]] + B[:2]]]
+    else:
+        body = B[:2] + [['assoc', A1, B]] + B
+    return body
+
 # ------------------------------------------------------------------------------------ fixed witnesses of the defects
 V = lambda x: ['var', x]
 I = lambda n: ['int', n]
@@ -644,7 +712,9 @@ class C29(Property):
     rule = ('generated integer routines with (nested, up to 3 deep) ASSOCIATE blocks inside/around DO and IF: selectors = scalar variables, whole arrays, '
             'array elements, array sections (free ranges `:`/`1:4`, 1-D and 2-D), expression selectors (sums/products of scalars and literals), '
             'selectors built from enclosing associate names (alias of alias, element/section of a section), shadowing of enclosing associate names, '
-            'associate names as DO variables; selectors drawn from the class `selectors_stable` by construction (dynamic parts of a selector only use '
+            'associate names as DO variables; streams with textually identical statements under different bindings of the same names (sibling blocks, nested '
+            'shadowing with other selectors, associate names equal to routine variables used outside the block, kept outer names subscripted by inner '
+            'names under start_depth=1); selectors drawn from the class `selectors_stable` by construction (dynamic parts of a selector only use '
             'names the block body does not write) and the class membership is re-checked in Coq for every case; operations: do_resolve_associates '
             '(start_depth 0/1/2), do_merge_associates (unique names, nested selectors over names fixed at the outermost block; class membership '
             'merge_ok evaluated in Coq), merge followed by resolve, and a small stream where merge raises; a case is non-trivial when the '
@@ -669,15 +739,20 @@ class C29(Property):
         ngf = 12 if tier == 'quick' else n // 2
         for i in range(n):
             r = i % 20
-            if r < 9: kind, op, sd = 'resolve', 'resolve', 0
-            elif r < 12: sd = 1 + (i // 20) % 2; kind, op = 'resolve-sd%d' % sd, 'resolve'
+            if r < 6: kind, op, sd = 'resolve', 'resolve', 0
+            elif r < 9: kind, op, sd = 'rebind-' + ('sibling', 'nested', 'basevar')[r - 6], 'resolve', (0, 0, 0, 1)[(i // 20) % 4]
+            elif r < 11: sd = 1 + (i // 20) % 2; kind, op = 'resolve-sd%d' % sd, 'resolve'
+            elif r < 12: kind, op, sd = 'rebind-keptsub', 'resolve', 1
             elif r < 16: kind, op, sd = 'merge', 'merge', 0
             elif r < 19: sd = (i // 20) % 2; kind, op = 'merge+resolve-sd%d' % sd, 'merge+resolve'
             else: kind, op, sd = 'merge-crash', 'merge', 0
             sub = random.Random(rng.getrandbits(64))
             # (merge followed by full resolution raises IndexError as soon as an intrinsic is called inside a nested block: finding F20)
             g = Gen(sub, mode='merge' if op.startswith('merge') else 'resolve', nointr=(op == 'merge+resolve' and sd == 0))
-            body = g.program(nstmt=sub.randint(2, 3))
+            if kind.startswith('rebind'):
+                body = gen_rebind(sub, kind[7:]); g.features = {kind}
+            else:
+                body = g.program(nstmt=sub.randint(2, 3))
             if kind == 'merge-crash':
                 body = [['assoc', [['p', ['name', 'b']]], [['assoc', [['s', ['val', ['sum', False, V('n'), I(sub.randint(0, 5))]]]], body + [['assign', 'y', V('s')]]]]]]
             stores = [store_json(gen_store(sub)) for _ in range(3)]
